@@ -1,33 +1,44 @@
-(* Property C03: the whole simplify pipeline, relative to the algebraic laws it uses and to the contract of fold_constants. *)
+(* Property C03: the whole simplify pipeline, relative to the algebraic laws it uses and to the contract of fold_constants.
+   Values carry a refinement preorder [ref new old]: "wherever old is defined, new is defined and equal". *)
 From Coq Require Import ZArith List Bool Lia.
 From Bingo Require Import Lib.Alg Gen.OpDefs Gen.OpEval Model.Stack Model.Cas Model.Parse Model.AGraphObj
      Proofs.ReduceProofs Proofs.BuildProofs Proofs.CasProofs Proofs.CasInterpProofs.
 Import ListNotations.
 Local Open Scope Z_scope.
 
-(* the identities the simplifier relies on; over the reals they hold wherever every power has a positive base and no
-   denominator vanishes (the ring laws, the integer homomorphism and the unary facts hold everywhere) *)
-Record cas_laws {V : Type} (A : alg V) : Prop := {
+(* the identities the simplifier relies on.  Equations hold as written; the five refinements are the places where a rewrite may
+   make an undefined value defined (0 for a*0, 1 for 1^e and b^0, and the power identities).  With iexp = true the three power
+   identities are required for integer exponents only - that is how they hold pointwise over the reals (Proofs/CasReal.v). *)
+Record cas_laws {V : Type} (A : alg V) (ref : V -> V -> Prop) (iexp : bool) : Prop := {
+  l_refl : forall a, ref a a;
+  l_trans : forall a b c, ref a b -> ref b c -> ref a c;
+  l_op1_mono : forall o a a', ref a' a -> ref (sem_op1 A o a') (sem_op1 A o a);
+  l_op2_mono : forall o a a' b b', ref a' a -> ref b' b -> ref (sem_op2 A o a' b') (sem_op2 A o a b);
   l_add_comm : forall a b, a_add A a b = a_add A b a;
   l_add_assoc : forall a b c, a_add A a (a_add A b c) = a_add A (a_add A a b) c;
   l_add_0_r : forall a, a_add A a (a_of_int A 0) = a;
   l_mul_comm : forall a b, a_mul A a b = a_mul A b a;
   l_mul_assoc : forall a b c, a_mul A a (a_mul A b c) = a_mul A (a_mul A a b) c;
   l_mul_1_r : forall a, a_mul A a (a_of_int A 1) = a;
-  l_mul_0_r : forall a, a_mul A a (a_of_int A 0) = a_of_int A 0;
+  l_mul_0_r : forall a, ref (a_of_int A 0) (a_mul A a (a_of_int A 0));
   l_distr : forall a b t, a_add A (a_mul A a t) (a_mul A b t) = a_mul A (a_add A a b) t;
   l_int_add : forall a b, a_of_int A (a + b) = a_add A (a_of_int A a) (a_of_int A b);
   l_int_mul : forall a b, a_of_int A (a * b) = a_mul A (a_of_int A a) (a_of_int A b);
   l_sub : forall a b, a_sub A a b = a_add A a (a_mul A (a_of_int A (-1)) b);
   l_div : forall a b, a_div A a b = a_mul A a (a_pow A b (a_of_int A (-1)));
-  l_pow_1_l : forall e, a_pow A (a_of_int A 1) e = a_of_int A 1;
+  l_pow_1_l : forall e, ref (a_of_int A 1) (a_pow A (a_of_int A 1) e);
   l_pow_0_l : forall k, 0 < k -> a_pow A (a_of_int A 0) (a_of_int A k) = a_of_int A 0;
   l_pow_1_r : forall b, a_pow A b (a_of_int A 1) = b;
-  l_pow_0_r : forall b, a_pow A b (a_of_int A 0) = a_of_int A 1;
+  l_pow_0_r : forall b, ref (a_of_int A 1) (a_pow A b (a_of_int A 0));
   l_pow_int : forall a k, 0 < k -> a_pow A (a_of_int A a) (a_of_int A k) = a_of_int A (a ^ k);
-  l_pow_pow : forall b e1 e2, a_pow A (a_pow A b e1) e2 = a_pow A b (a_mul A e1 e2);
-  l_pow_mul : forall a b e, a_pow A (a_mul A a b) e = a_mul A (a_pow A a e) (a_pow A b e);
-  l_pow_add : forall b e1 e2, a_mul A (a_pow A b e1) (a_pow A b e2) = a_pow A b (a_add A e1 e2);
+  l_pow_pow : forall b e1 e2, (iexp = true -> is_iv A e1 /\ is_iv A e2) ->
+              ref (a_pow A b (a_mul A e1 e2)) (a_pow A (a_pow A b e1) e2);
+  l_pow_mul : forall a b e, (iexp = true -> is_iv A e) ->
+              ref (a_mul A (a_pow A a e) (a_pow A b e)) (a_pow A (a_mul A a b) e);
+  l_pow_add : forall b e1 e2, (iexp = true -> is_iv A e1 /\ is_iv A e2) ->
+              ref (a_pow A b (a_add A e1 e2)) (a_mul A (a_pow A b e1) (a_pow A b e2));
+  l_pow_add_nn : forall b k1 k2, 0 <= k1 -> 0 <= k2 ->
+              a_mul A (a_pow A b (a_of_int A k1)) (a_pow A b (a_of_int A k2)) = a_pow A b (a_of_int A (k1 + k2));
   l_sin_0 : a_sin A (a_of_int A 0) = a_of_int A 0;
   l_sinh_0 : a_sinh A (a_of_int A 0) = a_of_int A 0;
   l_cos_0 : a_cos A (a_of_int A 0) = a_of_int A 1;
@@ -38,12 +49,14 @@ Record cas_laws {V : Type} (A : alg V) : Prop := {
 }.
 
 Section Pipe.
-Context {V : Type} (A : alg V) (L : cas_laws A).
+Context {V : Type} (A : alg V) (ref : V -> V -> Prop) (iexp : bool) (L : cas_laws A ref iexp).
 
-Lemma auto_sound xv cv depth rf e r : automatic_simplify true depth rf e = Some r -> ev A xv cv r = ev A xv cv e.
+Lemma auto_sound fits xv cv depth rf e r : automatic_simplify true iexp fits depth rf e = Some r -> ref (ev A xv cv r) (ev A xv cv e).
 Proof.
-  destruct L. intros H. eapply (automatic_simplify_sound A xv cv); try eassumption; reflexivity.
+  destruct L. intros H. eapply (automatic_simplify_sound A ref iexp xv cv); try eassumption; reflexivity.
 Qed.
+Lemma int_mul_0_from k : a_mul A (a_of_int A k) (a_of_int A 0) = a_of_int A 0.
+Proof. destruct L. rewrite <- l_int_mul0, Z.mul_0_r. reflexivity. Qed.
 Lemma optional_sound xv cv depth e r : optional_modifications depth e = Some r -> ev A xv cv r = ev A xv cv e.
 Proof. destruct L. intros H. eapply (optional_modifications_sound A xv cv); eassumption. Qed.
 Lemma add_0_l_from a : a_add A (a_of_int A 0) a = a.
@@ -54,37 +67,41 @@ Proof. destruct L. rewrite l_mul_comm0. apply l_mul_1_r0. Qed.
 (* what fold_constants has to guarantee: every setting of the constants of its input is matched by a setting of the constants
    of its output, at all points simultaneously *)
 Definition fold_contract (fold : cexpr -> cexpr) : Prop :=
-  forall e cv, exists cv', forall xv, ev A xv cv' (fold e) = ev A xv cv e.
+  forall e cv, exists cv', forall xv, ref (ev A xv cv' (fold e)) (ev A xv cv e).
 
-Theorem simplify_pipeline fold s e0 e1 e3 out fuel :
+Theorem simplify_pipeline fits fold s e0 e1 e3 out fuel :
   fold_contract fold -> scoped s -> s <> [] ->
-  build_cas s = Some e0 -> automatic_simplify true fuel fuel e0 = Some e1 ->
+  build_cas s = Some e0 -> automatic_simplify true iexp fits fuel fuel e0 = Some e1 ->
   optional_modifications fuel (fold e1) = Some e3 -> arity_ok e3 = true -> build_agraph_stack e3 = Some out ->
   out <> [] /\ scoped out /\
-  forall cv, exists cv', forall xv, sem A xv cv' (denote (renumber out 0)) = sem A xv cv (denote s).
+  forall cv, exists cv', forall xv, ref (sem A xv cv' (denote (renumber out 0))) (sem A xv cv (denote s)).
 Proof.
   intros FC Sc NE H0 H1 H3 Ok H4.
-  assert (B0 := fun xv cvx => build_agraph_stack_sound A xv (l_add_assoc A L) (l_add_0_r A L) add_0_l_from (l_mul_assoc A L) (l_mul_1_r A L) mul_1_l_from cvx e3 out Ok H4).
+  assert (B0 := fun xv cvx => build_agraph_stack_sound A xv (l_add_assoc A ref iexp L) (l_add_0_r A ref iexp L) add_0_l_from
+                                (l_mul_assoc A ref iexp L) (l_mul_1_r A ref iexp L) mul_1_l_from cvx e3 out Ok H4).
   pose (xv0 := fun _ : Z => a_of_int A 0). destruct (B0 xv0 xv0) as (NO & SO & _).
   split; [exact NO|]. split; [exact SO|]. intros cv.
   destruct (FC e1 (cv_row cv s)) as (c2 & Hc2).
   exists (fun j => c2 (nth (Z.to_nat j) (result_ids e3) 0)). intros xv.
   destruct (B0 xv c2) as (_ & _ & _ & Hs). rewrite Hs by (intros j Hj; rewrite Nat2Z.id; reflexivity).
-  rewrite (optional_sound xv c2 _ _ _ H3), Hc2, (auto_sound xv _ _ _ _ _ H1).
-  apply (build_cas_sound A xv (l_add_0_r A L) (l_mul_1_r A L) cv s e0 Sc NE H0).
+  rewrite (optional_sound xv c2 _ _ _ H3).
+  eapply (l_trans A ref iexp L); [apply Hc2|]. eapply (l_trans A ref iexp L); [apply (auto_sound fits xv _ _ _ _ _ H1)|].
+  rewrite (build_cas_sound A xv (l_add_0_r A ref iexp L) (l_mul_1_r A ref iexp L) cv s e0 Sc NE H0). apply (l_refl A ref iexp L).
 Qed.
 End Pipe.
 
-(* ---------- honesty about the law list ---------- *)
-(* Taken together and unconditionally the identities force 0 = 1: they encode x/x = 1 and 0 * y = 0 at once.  Over the reals each
-   identity holds on its own domain (powers: positive bases; x * x^(-1) = 1: x <> 0), so the theorems relative to [cas_laws] certify
-   that the simplifier rewrites ONLY by these identities; they are not a pointwise statement about the reals. *)
-Theorem cas_laws_degenerate {V : Type} (A : alg V) : cas_laws A -> a_of_int A 0 = a_of_int A 1.
+(* ---------- honesty about the unguarded reading ---------- *)
+(* Read with equality for the preorder and WITHOUT the integer-exponent guard, the identities force 0 = 1: they encode x/x = 1 and
+   0 * y = 0 at once.  So for expressions with general (non-integer) exponents the theorems relative to [cas_laws A eq false] only
+   certify WHICH identities are used; the pointwise statement over the reals is the one with the refinement preorder and
+   iexp = true (Proofs/CasReal.v). *)
+Theorem cas_laws_degenerate {V : Type} (A : alg V) : cas_laws A eq false -> a_of_int A 0 = a_of_int A 1.
 Proof.
   intros L. destruct L.
+  assert (G : forall e1 e2 : V, false = true -> is_iv A e1 /\ is_iv A e2) by (intros ? ? X; discriminate X).
   assert (E : a_mul A (a_pow A (a_of_int A 0) (a_of_int A 1)) (a_pow A (a_of_int A 0) (a_of_int A (-1))) = a_of_int A 1).
-  { rewrite l_pow_add0, <- l_int_add0. change (1 + -1) with 0. apply l_pow_0_r0. }
-  rewrite l_pow_1_r0 in E. rewrite <- E. rewrite l_mul_comm0. symmetry. apply l_mul_0_r0.
+  { rewrite <- (l_pow_add0 _ _ _ (G _ _)), <- l_int_add0. change (1 + -1) with 0. symmetry. apply l_pow_0_r0. }
+  rewrite l_pow_1_r0 in E. rewrite <- E. rewrite l_mul_comm0. apply l_mul_0_r0.
 Qed.
 
 (* the identities used by the two interpreter translations and by the optional modifications DO have non-degenerate models *)
